@@ -288,8 +288,10 @@ PROPS = {
                        'that the new parent is the documented one.',
     },
     'C14': {
-        'rules': ['R-ROOT', 'R-LABELEDIT', 'R-GUARD', 'R-LINK', 'R-FLAGS', 'R-RECURSE', 'R-ORDERED', 'R-STATE', 'R-MEMO', 'R-LEAFGUARD'],
+        'rules': ['R-ROOT', 'R-LABELEDIT', 'R-GUARD', 'R-LINK', 'R-FLAGS', 'R-RECURSE', 'R-ORDERED', 'R-STATE', 'R-MEMO', 'R-LEAFGUARD', 'R-STALE'],
         'filter': {'R-LEAFGUARD': site('transform.'),
+                   'R-STALE': site('transform._binarize', 'transform.binarize', 'transform._collapse', 'transform.collapse',
+                                   'transform._uncollapse', 'transform.uncollapse'),
                    'R-RECURSE': site('transform.'),
                    'R-STATE': both(rule('R-STATE/G1'), site('transform')),
                    'R-MEMO': site('transform'),
